@@ -168,6 +168,10 @@ def direct_failures(h, steps):
     """Save followed by loads: every task sees exactly the saved global list (and the mean)."""
     multi, kind = h["multi"], h["kind"]
     out = []
+    if h.get("foreign"):
+        # the directory holds a file that NIFTy never writes but the (weak) listing pattern accepts;
+        # the property speaks about sample files only -- such histories serve the correspondence
+        return out
     last = None        # expected global list after the last successful save
     for i, s in enumerate(steps):
         op, res = s["op"], s["res"]
@@ -233,6 +237,7 @@ def gen_history(rng, seed, nops):
         counter[0] += 1
         return counter[0]
     stale = []
+    foreign = False
     r = rng.random()
     if r < 0.5:         # files of an earlier, longer list and of unrelated bases
         for i in sorted(set(int(x) for x in rng.integers(0, 9, size=int(rng.integers(1, 6))))):
@@ -244,6 +249,7 @@ def gen_history(rng, seed, nops):
         if rng.random() < 0.3:
             stale.append(["other.pickle", "plain", fresh()])
     elif r < 0.6:       # names outside NIFTy's own (pattern weaker than intended): error paths
+        foreign = True
         stale.append([["%s.7.pickle.bak", "%s.007.pickle", "%sy3zpickle"][int(rng.integers(0, 3))] % base, kind, fresh()])
         if rng.random() < 0.5:
             stale.append(["%s.0.pickle" % base, kind, fresh()])
@@ -260,7 +266,7 @@ def gen_history(rng, seed, nops):
             ops.append(["save", split_random(rng, items, nt), fresh(), ov])
         else:
             ops.append(["load", int(rng.integers(1, 6))])
-    return {"base": base, "kind": kind, "multi": multi, "stale": stale, "ops": ops, "seed": int(seed)}
+    return {"base": base, "kind": kind, "multi": multi, "stale": stale, "ops": ops, "seed": int(seed), "foreign": foreign}
 
 
 # --------------------------------------------------------------------------------------------------
